@@ -16,7 +16,7 @@ def build(ctx):
 
 
 def bounded(ctx):
-    common.suites(ctx, ['align', 'mix', 'data', 'cedge'], {'concat', 'size'})
+    common.suites(ctx, ['align', 'mix', 'data', 'cedge', 'rand'], {'concat', 'size'})
 
 
 def explanation(ctx):
